@@ -18,7 +18,7 @@ from ..cfg import cfg_of
 from ..effects import Effects
 from ..fold import ExtVal, Inst, is_unknown
 from ..spec import tables as T
-from .common import (resolve_all, JWE_PRODUCE, can_reach_exit, const_value, entries, impls, is_const, scope_of, sites_calling, succ_by_label)
+from .common import (resolve_all, reaching_values, JWE_PRODUCE, can_reach_exit, const_value, entries, impls, is_const, scope_of, sites_calling, succ_by_label)
 from .c05 import _resolve_local
 from .c20 import shared_classes
 
@@ -279,6 +279,23 @@ def r18_2(ctx) -> None:
     # the default is what is used and recorded when the caller gave none
     uses = [n for n in fn_nodes(enc) if isinstance(n, ast.Attribute) and n.attr == "DEFAULT_P2C"]
     ctx.check(bool(uses), "R18.2", enc, enc.node, "PBES2 default count used", "PBES2 encrypt_cek does not use DEFAULT_P2C", "p2c = self.DEFAULT_P2C", construct="DEFAULT_P2C use")
+    # every count the library itself chooses (what it records as "p2c" when the header named none) folds to >= 1000, for secrets of every length
+    import re as _re
+    sn_ = enc.self_name or "self"
+    nrec = 0
+    for node in fn_nodes(enc):
+        if isinstance(node, ast.Call) and isinstance(node.func, ast.Attribute) and node.func.attr in ("add_header", "__setitem__") and len(node.args) == 2 \
+                and const_value(node.args[0]) == "p2c":
+            a1 = node.args[1]
+            rv = reaching_values(enc, a1.id, node) if isinstance(a1, ast.Name) and a1.id not in enc.params else None
+            for txt in [t_ for v_ in (rv if rv else [a1]) for t_ in resolve_all(eng, enc, v_)]:
+                nrec += 1
+                m = _re.fullmatch(rf"{sn_}\.(\w+)", txt)
+                val = F.class_attr(pb, m.group(1)) if m else (const_value(ast.parse(txt, mode="eval").body) if txt.lstrip("-").isdigit() else None)
+                ctx.check(isinstance(val, int) and not isinstance(val, bool) and val >= 1000, "R18.2", enc, node, f"PBES2 recorded p2c `{txt}`",
+                          f"the iteration count the library chooses by itself can be `{txt}` = {val!r} (a default of at least 1000 is required for every secret)", ">= 1000",
+                          construct=f"library-chosen p2c {txt}")
+    ctx.count("R18.2/p2c", nrec, 1, "iteration counts the library records by itself")
     # oct / RSA / EC / OKP generation arguments
     oct_ = P.cls("rfc7518.oct_key:OctKey").methods["generate_key"]
     cfg = cfg_of(oct_)
@@ -485,6 +502,9 @@ def run(ctx) -> None:
     from .c20 import r20_1, key_class_functions
     from ..effects import Effects
     ctx.guard_as("R18.7", r20_1, Effects(ctx.eng.prog, ctx.eng.cg), key_class_functions(ctx.eng))
+    # "of the requested size or curve": the size / curve / private flag the caller asked for reaches the generator unchanged
+    from .common import forwarding_discipline
+    ctx.guard(forwarding_discipline, "R18.8", ['crv', 'key_size', 'crv_or_size', 'private', 'key_type'], 15)
     ctx.guard(r18_6)
     ctx.guard(r18_1)
     ctx.guard(r18_2)
